@@ -22,6 +22,19 @@
 //!    mode also every document without authentication fields. Counted, not asserted: whole-key
 //!    rollback to the previous committed version, and - in compatibility mode only - documents
 //!    that carry no authentication-era field at all (the documented downgrade window).
+//!    **Compound class `warm_retry_*` (stale-pointer retry of a warm instance).** For every state
+//!    and each key as victim: a document naming ANOTHER generation is installed as the victim's
+//!    commit point (the other key's object transplanted incl. its ciphertext under the foreign
+//!    generation id; the victim's previous document replayed over its previous / the current / a
+//!    foreign payload; the current document with only `g` re-pointed to the other, the other
+//!    key's or a forged generation; seal- / field-stripped variants of these, the legacy-looking
+//!    ones with the payload at `data/<key>`) AND the generation a warm cache points at is deleted.
+//!    Every read path then runs as the FIRST read of its own freshly warmed instance (warmed
+//!    through get / head / get_range / get_ranges in rotation), followed by a second read; a spy
+//!    store shows that the first read re-fetched the commit point (= took the re-resolution).
+//!    Same oracle; a read that follows a re-pointed / foreign / seal-less document and still
+//!    returns the original is reported under `C09/documented/..`; rollback to the previous
+//!    version in full and the compatibility-mode downgrade window are counted as above.
 //! 2. **Plaintext scan.** Everything that crosses the backend boundary (recorded by a spy
 //!    store: put payloads, multipart parts, incl. aborted / dropped uploads and failed commits)
 //!    and everything that persists is scanned for 8-byte windows of any plaintext and for a
@@ -155,6 +168,10 @@ fn flush_site_counts() {
 struct SpyLog {
     payloads: Vec<(String, Bytes)>,
     fail_next_meta_put: bool,
+    /// backend path whose GETs are counted (the warm-retry class watches the victim's commit
+    /// point: a warm instance fetches it again only when it re-resolves a stale pointer)
+    watch: Option<String>,
+    watch_hits: u64,
 }
 
 #[derive(Clone)]
@@ -205,6 +222,12 @@ impl ObjectStore for SpyStore {
         Ok(Box::new(SpyUpload { store: self.clone(), path: location.to_string(), inner: up }))
     }
     async fn get_opts(&self, location: &Path, options: GetOptions) -> object_store::Result<GetResult> {
+        {
+            let mut g = self.log.lock().unwrap();
+            if g.watch.as_deref() == Some(location.as_ref()) {
+                g.watch_hits += 1;
+            }
+        }
         self.inner.get_opts(location, options).await
     }
     async fn get_ranges(&self, location: &Path, ranges: &[Range<u64>]) -> object_store::Result<Vec<Bytes>> {
@@ -1047,8 +1070,13 @@ async fn listing_outcomes(store: &Store, keys: &[KeyState], expect: [Expect; 2],
 }
 
 async fn copy_then_read(store: &Store, ks: &KeyState, k: usize, rb: bool, p: &mut Probe<'_>) {
+    let o = copy_then_read_outcome(store, ks, k, rb).await;
+    p.push("copy_then_read", o);
+}
+
+async fn copy_then_read_outcome(store: &Store, ks: &KeyState, k: usize, rb: bool) -> Outcome {
     let to = Path::from(format!("copies/{k}"));
-    let o = match store.copy(&Path::from(ks.key.as_str()), &to).await {
+    match store.copy(&Path::from(ks.key.as_str()), &to).await {
         Err(_) => Outcome::Failed,
         Ok(()) => match store.get(&to).await {
             Err(_) => Outcome::Failed,
@@ -1067,8 +1095,7 @@ async fn copy_then_read(store: &Store, ks: &KeyState, k: usize, rb: bool, p: &mu
                 }
             }
         },
-    };
-    p.push("copy_then_read", o);
+    }
 }
 
 /// The document as the store's struct decoder sees it: known fields only, field names given as
@@ -1336,6 +1363,383 @@ async fn run_tamper(ctx: &StateCtx<'_>, t: &Tamper, idx: usize, warm: bool, st: 
     ok
 }
 
+// ---------------------------------------------------------------------------------------------
+// compound tampers against a WARM instance: the stale-pointer retry / re-resolution paths
+//
+// A long-running instance holds the victim's valid commit point in its metadata cache. A read
+// whose payload GET misses (the generation the cached document names is gone) re-resolves the
+// commit point from the backend and follows it if it names another generation. That re-resolved
+// document is attacker-controlled and must be authenticated like any other - but the code that
+// does so runs only (1) on an instance with a cached document, (2) when the backend document
+// names a different generation than the cached one and (3) when the cached generation's payload
+// is gone, and only for the FIRST read after the tamper (the re-resolved document replaces the
+// cached one). No single-site tamper produces that situation (a deleted payload alone re-resolves
+// the untouched document; a tampered document alone is never looked at by a warm instance or is
+// rejected up front by a cold one), so it gets its own class: install a document that names
+// another generation + provide a payload under that generation + delete the cached generation,
+// then run every read path as the first read of its own freshly warmed instance.
+
+const WR_TRANSPLANT: &str = "warm_retry_transplant_other_key";
+const WR_REPLAY: &str = "warm_retry_replay_previous";
+const WR_REPOINT: &str = "warm_retry_repoint_generation";
+const WR_STRIPPED: &str = "warm_retry_stripped_document";
+const WR_CLASSES: [&str; 4] = [WR_TRANSPLANT, WR_REPLAY, WR_REPOINT, WR_STRIPPED];
+/// read paths that fetch (or copy) the payload and therefore take the retry when it is gone
+const WR_PAYLOAD_PATHS: [&str; 7] =
+    ["get", "head", "get_range_bounded", "get_range_offset", "get_range_suffix", "get_ranges", "copy_then_read"];
+const WR_LISTING_PATHS: [&str; 3] = ["list", "list_with_offset", "list_with_delimiter"];
+
+/// `doc` installed as the victim's commit point, `payload` stored where `doc` points to under the
+/// victim's key, and the generation a warm cache points at deleted.
+fn compound(ks: &KeyState, k: usize, class: &'static str, what: String, doc: Vec<u8>, payload: &[u8], expect: Expect) -> Option<Tamper> {
+    let target = pointer_of(&ks.key, &doc)?;
+    if target == ks.pay_new_path {
+        return None; // names the cached generation: not a moved pointer
+    }
+    let mut e = [Expect::Normal; 2];
+    e[k] = expect;
+    Some(Tamper {
+        class,
+        what: format!("{} := {what}; {target} := that payload; {} (the cached generation) deleted", ks.meta_path, ks.pay_new_path),
+        edits: vec![
+            (target, Some(payload.to_vec())),
+            (ks.meta_path.clone(), Some(doc)),
+            (ks.pay_new_path.clone(), None),
+        ],
+        full: [k == 0, k == 1],
+        expect: e,
+    })
+}
+
+fn enumerate_compound(s: &State, k: usize, out: &mut Vec<Tamper>) {
+    let ks = &s.keys[k];
+    let other = &s.keys[1 - k];
+    // (class, what, document, payload offered under the document's pointer, expectation, also stripped?)
+    let mut bases: Vec<(&'static str, String, Vec<u8>, Vec<u8>, Expect, bool)> = vec![
+        // (a) another key's object transplanted: sealed document + ciphertext under its generation id
+        (WR_TRANSPLANT, format!("current document of {}, with its payload", other.key), other.meta_new.clone(), other.pay_new.clone(), Expect::MustReject, true),
+        (WR_TRANSPLANT, format!("previous document of {}, with its payload", other.key), other.meta_old.clone(), other.pay_old.clone(), Expect::MustReject, false),
+        // (b) the key's previous document replayed. With its genuine previous payload this is the
+        // whole-key rollback (not decidable by the store); with any other payload the document is
+        // still a validly sealed previous commit point (head / listings consult it alone), but
+        // bytes may only come back as the previous version in full
+        (WR_REPLAY, "its previous document, previous payload present".into(), ks.meta_old.clone(), ks.pay_old.clone(), Expect::Rollback, true),
+        (WR_REPLAY, "its previous document, over the CURRENT payload".into(), ks.meta_old.clone(), ks.pay_new.clone(), Expect::Rollback, false),
+        (WR_REPLAY, format!("its previous document, over the previous payload of {}", other.key), ks.meta_old.clone(), other.pay_old.clone(), Expect::Rollback, false),
+    ];
+    // (c) the current document with only `g` re-pointed (seal kept)
+    if let (Some(map), Some(old_map)) = (cbor_decode(&ks.meta_new), cbor_decode(&ks.meta_old)) {
+        let other_map = cbor_decode(&other.meta_new).unwrap_or_default();
+        if let Some(g) = field(&old_map, "g") {
+            let doc = cbor_encode(&with_value(&map, "g", g.clone()));
+            bases.push((WR_REPOINT, "current document, g := the key's other generation (its payload present)".into(), doc.clone(), ks.pay_old.clone(), Expect::MustReject, true));
+            bases.push((WR_REPOINT, "current document, g := the key's other generation, holding the current payload".into(), doc, ks.pay_new.clone(), Expect::MustReject, true));
+        }
+        if let Some(g) = field(&other_map, "g") {
+            let doc = cbor_encode(&with_value(&map, "g", g.clone()));
+            bases.push((WR_REPOINT, format!("current document, g := generation id of {}, holding that key's payload", other.key), doc, other.pay_new.clone(), Expect::MustReject, false));
+        }
+        let doc = cbor_encode(&with_value(&map, "g", Cbor::from("0000000000000001-deadbeef")));
+        bases.push((WR_REPOINT, "current document, g := a forged generation id, holding the current payload".into(), doc, ks.pay_new.clone(), Expect::MustReject, false));
+    }
+    // (d) seal-stripped / field-stripped variants; without `g` the document points at the legacy
+    // location data/<key>, where the payload is offered then
+    let strips: [&[&str]; 7] = [
+        &["an", "at"],
+        &["at"],
+        &["an", "at", "g"],
+        &["an", "at", "av", "g"],
+        &["an", "at", "av", "g", "m"],
+        &["m"],
+        &["av"],
+    ];
+    for (class, what, doc, payload, expect, strip) in &bases {
+        out.extend(compound(ks, k, class, what.clone(), doc.clone(), payload, *expect));
+        if !*strip {
+            continue;
+        }
+        let Some(map) = cbor_decode(doc) else { continue };
+        for combo in strips {
+            // a stripped previous document is no longer a genuine previous commit point
+            let e = if *expect == Expect::Rollback { Expect::Normal } else { *expect };
+            out.extend(compound(ks, k, WR_STRIPPED, format!("{what}, fields {combo:?} removed"), cbor_encode(&without(&map, combo)), payload, e));
+        }
+    }
+}
+
+#[derive(Clone, Debug)]
+enum FirstRead {
+    Get,
+    Head,
+    Range(&'static str, GetRange),
+    GetRanges(Vec<Range<usize>>),
+    List(usize),
+    CopyThenRead,
+}
+
+impl FirstRead {
+    fn name(&self) -> &'static str {
+        match self {
+            FirstRead::Get => "get",
+            FirstRead::Head => "head",
+            FirstRead::Range(n, _) => *n,
+            FirstRead::GetRanges(_) => "get_ranges",
+            FirstRead::List(i) => WR_LISTING_PATHS[*i],
+            FirstRead::CopyThenRead => "copy_then_read",
+        }
+    }
+}
+
+fn first_reads(n: usize, chunk: usize) -> Vec<FirstRead> {
+    let (bounded, offsets, suffixes) = battery_ranges(n, chunk);
+    let mut v = vec![FirstRead::Get, FirstRead::Head];
+    for r in &bounded {
+        v.push(FirstRead::Range("get_range_bounded", GetRange::Bounded(r.start as u64..r.end as u64)));
+    }
+    for o in offsets {
+        v.push(FirstRead::Range("get_range_offset", GetRange::Offset(o as u64)));
+    }
+    for s in suffixes {
+        v.push(FirstRead::Range("get_range_suffix", GetRange::Suffix(s as u64)));
+    }
+    if !bounded.is_empty() {
+        let mut rs: Vec<Range<usize>> = bounded.iter().rev().take(4).cloned().collect();
+        rs.push(bounded[0].clone());
+        v.push(FirstRead::GetRanges(rs));
+    }
+    for i in 0..WR_LISTING_PATHS.len() {
+        v.push(FirstRead::List(i));
+    }
+    v.push(FirstRead::CopyThenRead);
+    v
+}
+
+/// A ranged get judged against the current version and (if `rb`) the previous one, each with the
+/// range the request resolves to on an object of that version's length.
+async fn ranged_outcome(store: &Store, ks: &KeyState, gr: &GetRange, rb: bool) -> Outcome {
+    let opts = GetOptions { range: Some(gr.clone()), ..Default::default() };
+    let res = match store.get_opts(&Path::from(ks.key.as_str()), opts).await {
+        Err(_) => return Outcome::Failed,
+        Ok(res) => res,
+    };
+    let (size, tag, rr) = (res.meta.size, res.meta.e_tag.clone(), res.range.clone());
+    let b = match res.bytes().await {
+        Err(_) => return Outcome::Failed,
+        Ok(b) => b,
+    };
+    for (full, etag, o, allowed) in [(&ks.orig, &ks.etag, Outcome::Original, true), (&ks.old, &ks.old_etag, Outcome::Previous, rb)] {
+        if !allowed {
+            continue;
+        }
+        if let Ok(r) = gr.as_range(full.len() as u64) {
+            if size == full.len() as u64 && &tag == etag && rr == r && b.as_ref() == &full[r.start as usize..r.end as usize] {
+                return o;
+            }
+        }
+    }
+    Outcome::Wrong(format!(
+        "{gr:?} returned {}B {} (reported range {rr:?}, size {size}, etag {tag:?}); written {}B {}",
+        b.len(),
+        hex(&b),
+        ks.orig.len(),
+        hex(&ks.orig)
+    ))
+}
+
+async fn get_ranges_outcome(store: &Store, ks: &KeyState, rs: &[Range<usize>], rb: bool) -> Outcome {
+    let req: Vec<Range<u64>> = rs.iter().map(|r| r.start as u64..r.end as u64).collect();
+    match store.get_ranges(&Path::from(ks.key.as_str()), &req).await {
+        Err(_) => Outcome::Failed,
+        Ok(v) => {
+            let is = |full: &[u8]| v.len() == rs.len() && rs.iter().zip(&v).all(|(r, b)| full.get(r.clone()) == Some(b.as_ref()));
+            if is(&ks.orig) {
+                Outcome::Original
+            } else if rb && is(&ks.old) {
+                Outcome::Previous
+            } else {
+                Outcome::Wrong(format!(
+                    "ranges {rs:?} returned {:?}; written {}B {}",
+                    v.iter().map(|b| hex(b)).collect::<Vec<_>>(),
+                    ks.orig.len(),
+                    hex(&ks.orig)
+                ))
+            }
+        }
+    }
+}
+
+async fn listing_outcome(store: &Store, ks: &KeyState, which: usize, rb: bool) -> Outcome {
+    let l: object_store::Result<Vec<ObjectMeta>> = match which {
+        0 => store.list(None).try_collect().await,
+        1 => store.list_with_offset(None, &Path::from("0")).try_collect().await,
+        _ => store.list_with_delimiter(Some(&Path::from("k"))).await.map(|r| r.objects),
+    };
+    match l {
+        Err(_) => Outcome::Failed,
+        Ok(l) => match l.iter().find(|m| m.location.as_ref() == ks.key) {
+            None => Outcome::Failed, // skipped by the listing
+            Some(m) => judge_meta(ks, m.size, &m.e_tag, rb),
+        },
+    }
+}
+
+/// Loads the victim's commit point into the instance's metadata cache through one of the read
+/// paths; false if the untouched object did not read back.
+async fn warm_up(store: &Store, ks: &KeyState, how: usize) -> bool {
+    let path = Path::from(ks.key.as_str());
+    let n = ks.orig.len();
+    match how % 4 {
+        1 => matches!(store.head(&path).await, Ok(m) if m.size == n as u64 && m.e_tag == ks.etag),
+        2 if n > 0 => matches!(store.get_range(&path, 0..1).await, Ok(b) if b.as_ref() == &ks.orig[..1]),
+        3 if n > 0 => matches!(store.get_ranges(&path, &[0..n as u64]).await, Ok(v) if v.len() == 1 && v[0].as_ref() == ks.orig.as_slice()),
+        _ => match store.get(&path).await {
+            Ok(r) => matches!(r.bytes().await, Ok(b) if b.as_ref() == ks.orig.as_slice()),
+            Err(_) => false,
+        },
+    }
+}
+
+/// One compound tamper for victim `k`: every read path as the FIRST read of its own freshly
+/// warmed instance, followed by a second read (plain get) on the same instance.
+/// Returns false when a violation was recorded.
+async fn run_compound(ctx: &StateCtx<'_>, t: &Tamper, k: usize, idx: usize, st: &mut Stats) -> bool {
+    let s = ctx.s;
+    let ks = &s.keys[k];
+    let other = &s.keys[1 - k];
+    // what the documented rules say about an installed document whose seal is not (fully) there
+    let mut expect = t.expect[k];
+    for (p, e) in &t.edits {
+        let Some(b) = e else { continue };
+        if p != &ks.meta_path {
+            continue;
+        }
+        match seal_view(b) {
+            SealView::SealedOrUndecodable => {}
+            SealView::MissingSealWithV1Fields => expect = Expect::MustReject,
+            SealView::LegacyLooking if ctx.strict => expect = Expect::MustReject,
+            SealView::LegacyLooking => expect = Expect::Undecidable,
+        }
+    }
+    let class = t.class;
+    st.count(&format!("warm_retry:{class}"));
+    st.count("warm_retry_compound_tampers");
+    st.count(match expect {
+        Expect::MustReject => "warm_retry_expectation:must_be_rejected(documented)",
+        Expect::Rollback => "warm_retry_expectation:rollback_not_decidable",
+        Expect::Undecidable => "warm_retry_expectation:compat_downgrade_window_not_decidable",
+        Expect::Normal => "warm_retry_expectation:fail_or_original",
+    });
+    let rb = expect == Expect::Rollback;
+    let mut ok = true;
+    let mut seen: Vec<String> = vec![];
+    for (ri, fr) in first_reads(ks.orig.len(), s.chunk as usize).iter().enumerate() {
+        let spy = SpyStore { inner: Arc::new(s.base.fork()), log: Arc::new(Mutex::new(SpyLog::default())) };
+        let store = build_store(Arc::new(spy.clone()), s.chunk, ctx.strict);
+        let how = idx + ri;
+        if !warm_up(&store, ks, how).await {
+            st.inconclusive("C09: the untouched object did not read back through a fresh instance (warm-up of the warm_retry class)");
+            return false;
+        }
+        st.count(["warm_retry_warmed_by:get", "warm_retry_warmed_by:head", "warm_retry_warmed_by:get_range", "warm_retry_warmed_by:get_ranges"][how % 4]);
+        if how % 2 == 1 {
+            // the other key's commit point is cached as well
+            let _ = store.head(&Path::from(other.key.as_str())).await;
+        }
+        apply_edits(&spy.inner, t).await;
+        {
+            let mut g = spy.log.lock().unwrap();
+            g.watch = Some(ks.meta_path.clone());
+            g.watch_hits = 0;
+        }
+        let name = fr.name();
+        let first = match fr {
+            FirstRead::Get => get_outcome(&store, ks, GetOptions::default(), None, rb).await,
+            FirstRead::Head => match store.head(&Path::from(ks.key.as_str())).await {
+                Err(_) => Outcome::Failed,
+                Ok(m) => judge_meta(ks, m.size, &m.e_tag, rb),
+            },
+            FirstRead::Range(_, gr) => ranged_outcome(&store, ks, gr, rb).await,
+            FirstRead::GetRanges(rs) => get_ranges_outcome(&store, ks, rs, rb).await,
+            FirstRead::List(i) => listing_outcome(&store, ks, *i, rb).await,
+            FirstRead::CopyThenRead => copy_then_read_outcome(&store, ks, k, rb).await,
+        };
+        // a warm instance fetches the commit point again only when it re-resolves the pointer
+        let refetched = spy.log.lock().unwrap().watch_hits > 0;
+        st.count(&format!("warm_retry_first_reads:{name}"));
+        if refetched {
+            st.count(&format!("warm_retry_pointer_re_resolved_by_first_read:{name}"));
+            st.count("warm_retry_pointer_re_resolved_by_first_read");
+        }
+        // the second read on the same instance (the re-resolved document is the cached one now;
+        // after a listing it is the first read that touches the payload)
+        let second = get_outcome(&store, ks, GetOptions::default(), None, rb).await;
+        st.count("warm_retry_second_reads:get");
+        for (stage, path, o) in [("first read", name, &first), ("second read", "get", &second)] {
+            st.eval();
+            let sig_path = if stage == "first read" { path.to_string() } else { format!("second_read_{path}") };
+            let detail = |got: &str| {
+                json!({"case": ctx.case, "tamper": t.what, "key": ks.key, "read_path": path, "stage": stage, "request": format!("{fr:?}"),
+                       "got": got, "edits": describe_edits(s, t),
+                       "instance": format!("warm: commit point of {} cached through {} before the tamper landed; this is the {stage} after it{}",
+                           ks.key, ["get", "head", "get_range", "get_ranges"][how % 4],
+                           if refetched { ", the first read re-resolved the commit point from the backend" } else { "" }),
+                       "chunk_size": s.chunk, "strict": ctx.strict, "size": ks.orig.len(), "written_by": format!("{:?}", ks.method)})
+            };
+            match o {
+                Outcome::Failed => {
+                    st.count("warm_retry_read_failed");
+                    st.count(&format!("warm_retry_failed:{sig_path}"));
+                }
+                Outcome::Original => {
+                    st.count("warm_retry_read_returned_original");
+                    // a listing on a warm instance answers from the still valid cached document;
+                    // every other path had to follow the installed document to get anywhere
+                    if expect == Expect::MustReject && !WR_LISTING_PATHS.contains(&path) {
+                        st.violation(
+                            format!("C09/documented/{class}/{sig_path}/accepted"),
+                            detail("the original bytes / size / token - but the payload the cached commit point names is gone, so the read followed the installed document, which must fail authentication on every read path (docs 2.7, 4.7; with_strict_metadata_auth docs)"),
+                        );
+                        ok = false;
+                    }
+                }
+                Outcome::Previous => {
+                    st.count("warm_retry_rollback_whole_key_previous_version_served");
+                }
+                Outcome::Wrong(_) if expect == Expect::Undecidable => {
+                    st.count("warm_retry_compat_downgrade_window_served_wrong_result");
+                    st.count(&format!("warm_retry_compat_downgrade_window_served_wrong_result:{sig_path}"));
+                }
+                Outcome::Wrong(w) => {
+                    st.violation(format!("C09/{class}/{sig_path}/wrong_result"), detail(w));
+                    ok = false;
+                }
+            }
+        }
+        if seen.len() < 40 {
+            let word = |o: &Outcome| match o {
+                Outcome::Wrong(_) if expect == Expect::Undecidable => "wrong result (compat-mode downgrade window, not asserted)",
+                o => outcome_word(o),
+            };
+            seen.push(format!("{name}{}: {} / then get: {}", if refetched { " (re-resolved)" } else { "" }, word(&first), word(&second)));
+        }
+    }
+    // one transplant and one legacy-looking stripped transplant of two states
+    if ctx.case % 36 == 0 && k == 0 && (idx == 0 || (idx == 4 && expect == Expect::Undecidable)) {
+        let (what, strict) = (t.what.clone(), ctx.strict);
+        st.sample(move || json!({"monitor": "warm_retry", "class": class, "tamper": what, "strict": strict, "first_read / second_read outcomes": seen}));
+    }
+    ok
+}
+
+fn outcome_word(o: &Outcome) -> &'static str {
+    match o {
+        Outcome::Failed => "failed",
+        Outcome::Original => "original",
+        Outcome::Previous => "previous version in full",
+        Outcome::Wrong(_) => "WRONG",
+    }
+}
+
 fn tamper_case(case: u64, rng: &mut Rng, st: &mut Stats, chunks: &[u64], deep: bool) -> bool {
     let r = block_on(tamper_case_async(case, rng, st, chunks, deep));
     flush_site_counts();
@@ -1428,6 +1832,27 @@ async fn tamper_case_async(case: u64, rng: &mut Rng, st: &mut Stats, chunks: &[u
             if !run_tamper(&other, t, i + 1, false, st).await {
                 complete = false;
                 break;
+            }
+        }
+    }
+    // compound tampers that drive the stale-pointer retry of a warm instance
+    if complete {
+        'compound: for k in 0..2 {
+            let mut compounds = vec![];
+            enumerate_compound(&s, k, &mut compounds);
+            for (i, t) in compounds.iter().enumerate() {
+                if !run_compound(&ctx, t, k, i, st).await {
+                    complete = false;
+                    break 'compound;
+                }
+                // the stripped documents are judged under both authentication modes
+                if t.class == WR_STRIPPED {
+                    let other = StateCtx { case, s: &s, strict: !strict };
+                    if !run_compound(&other, t, k, i + 1, st).await {
+                        complete = false;
+                        break 'compound;
+                    }
+                }
             }
         }
     }
@@ -1818,6 +2243,21 @@ fn main() {
     run.floor("read_failed", 10_000);
     run.floor("read_returned_original", 10_000);
     run.floor("rollback_whole_key_previous_version_served", 10);
+    // compound tampers against warm instances (stale-pointer retry / re-resolution paths)
+    for (class, min) in WR_CLASSES.iter().zip([100u64, 150, 200, 2000]) {
+        run.floor(&format!("warm_retry:{class}"), min);
+    }
+    for path in WR_PAYLOAD_PATHS {
+        run.floor(&format!("warm_retry_first_reads:{path}"), 2000);
+        // the first read really went through the re-resolution (it fetched the commit point again)
+        run.floor(&format!("warm_retry_pointer_re_resolved_by_first_read:{path}"), 2000);
+    }
+    for path in WR_LISTING_PATHS {
+        run.floor(&format!("warm_retry_first_reads:{path}"), 2000);
+    }
+    run.floor("warm_retry_second_reads:get", 20_000);
+    run.floor("warm_retry_read_failed", 50_000);
+    run.floor("warm_retry_rollback_whole_key_previous_version_served", 500);
     run.floor("oracle_plaintext_scan", 5_000);
     run.floor("backend_windows_scanned", 100_000);
     run.floor("leak_op:multipart_abort", 20);
